@@ -40,7 +40,7 @@ def dump(o, depth=0, seen=None):
 
 def view(sim):
     out = {"graph": dump(sim)}
-    for name in ("get_memory_table_entries", "get_register_representations"):
+    for name in ("get_memory_table_entries", "get_register_representations", "get_toy_svg_update_values"):
         f = getattr(sim, name, None)
         if f is not None:
             try:
@@ -114,6 +114,8 @@ def one(text, n, rnd):
             continue
         first, second = mode.split("+")
         getattr(B, "first_cycle_step" if first == "first" else "single_step")()
+        if rnd.random() < 0.5:
+            view(B)          # the views are looked at in mid-instruction as well (a GUI redraws after every half cycle)
         if rnd.random() < 0.4:
             bad = rejected(B, rnd.choice(["first_cycle_step", "step"]))
             if bad:
